@@ -8,7 +8,7 @@ checks="${*:-C01 C02 C03 C04 C05 C06 C07 C08 C09 C10 C11 C12 C13 C14 C15 C16 C17
 wt="$(mktemp -d /tmp/vq-var-XXXXXX)"
 git -C /repo worktree add -q --detach "$wt" HEAD || exit 2
 trap 'git -C /repo worktree remove --force "$wt" >/dev/null 2>&1' EXIT
-if ! git -C "$wt" apply "$d/patch.diff"; then echo "patch_applies no"; exit 3; fi
+if ! git -C "$wt" apply "$d/patch.diff" 2>/dev/null && ! git -C "$wt" apply -3 "$d/patch.diff"; then echo "patch_applies no"; exit 3; fi
 ( cd "$wt" && PYTHONPATH="$wt/src" /venv/bin/python -m pytest -q -p no:cacheprovider -n 8 2>&1 | tail -1 | sed 's/^/repo_tests: /' )
 for c in $checks; do
   out="$(cd "$here" && VERIF_REPO="$wt" VERIF_NO_SHRINK=1 VERIF_OUT_DIR="$wt/_vqout" ./check "$c" --tier quick 2>&1)"; rc=$?
